@@ -860,7 +860,8 @@ class Stack(list):
                 num_endifs_needed += 1
                 current_array.append(item)
             elif num_endifs_needed == 1 and item == 103:
-                current_array = false_items
+                # Every OP_ELSE switches between the two branches
+                current_array = false_items if current_array is true_items else true_items
             elif item == 104:
                 if num_endifs_needed == 1:
                     found = True
